@@ -116,6 +116,12 @@ def gen_key(cls, rnd):
         k = list(base64.b64encode(rb(16)).decode())
         k[rnd.randrange(0, 21)] = rnd.choice("*!. ~")
         return cps("".join(k))
+    if cls == "noncanon":
+        # 16 octets in a non-canonical spelling: the 22nd symbol keeps its 2 data bits, the 4 unused bits are non-zero
+        k = list(base64.b64encode(rb(16)).decode())
+        alpha = "ABCDEFGHIJKLMNOPQRSTUVWXYZabcdefghijklmnopqrstuvwxyz0123456789+/"
+        k[21] = alpha[(alpha.index(k[21]) // 16) * 16 + rnd.randrange(1, 16)]
+        return cps("".join(k))
     if cls == "urlsafe":
         # 16 bytes whose encoding needs the characters 62/63 of the alphabet, URL-safe variant
         while True:
@@ -145,7 +151,8 @@ def concretise(progs, pid, tier, seed, mult, vary_cfg=True, vary_lines=True):
                     req[f] = mutate_token_lines(req[f], rnd)
                 req["proto"] = mutate_token_lines(req["proto"], rnd, fold=False, extra=False)
             k = req["key"]
-            if k.get("cls") in ("valid", "len14", "len15", "len17", "len18", "badalpha", "urlsafe") and (m > 0 or rnd.random() < 0.7):
+            if k.get("cls") in ("valid", "len14", "len15", "len17", "len18", "badalpha", "urlsafe", "noncanon") and (
+                    m > 0 or (k["cls"] != "noncanon" and rnd.random() < 0.7)):   # the enumerated non-canonical spellings are kept as they are
                 k["v"] = gen_key(k["cls"], rnd)
             if vary_cfg:
                 cfg["rbuf"] = rnd.choice(RBUFS)
@@ -179,7 +186,7 @@ def describe(prog):
                            WriteBufferSize=p["cfg"]["wbuf"], pool=p["cfg"]["pool"], custom_Error=p["cfg"]["errfn"]),
              responseHeader=None if p["rh"]["nil"] else dict(
                  **({"Sec-Websocket-Protocol": text(p["rh"]["proto"]["v"])} if p["rh"]["proto"]["present"] else {}),
-                 **({"Sec-Websocket-Extensions": "x-app-extension"} if p["rh"]["hasExt"] else {}),
+                 **({text(p["rh"].get("extKey") or cps("Sec-Websocket-Extensions")): text(p["rh"].get("extV") or [])} if p["rh"]["hasExt"] else {}),
                  extras=[[text(e["name"]), text(e["v"])] for e in p["rh"]["extras"]]),
              fault=p["fault"])
     return d
@@ -377,7 +384,8 @@ def base_p(host, origin):
                          host=host, origin=origin, proto=[], ext=[]),
                 cfg=dict(checkOrigin="nil", subsNil=True, subs=[], compress=False, hto=0, errfn=False,
                          rbuf=0, wbuf=0, pool=False, hsize=4096, hwsize=4096),
-                rh=dict(nil=True, hasExt=False, proto=dict(present=False, v=[]), extras=[]),
+                rh=dict(nil=True, hasExt=False, extKey=cps("Sec-Websocket-Extensions"), extV=cps("x-app-extension"),
+                        proto=dict(present=False, v=[]), extras=[]),
                 fault=dict(op=0, kind="err", closeErr=False, hijackErr=False))
 
 
@@ -618,7 +626,8 @@ def conc_c15(progs, tier, seed, mult):
                     q["n"] = rnd.choice([1, 17, 300, 300, 2000, 5000, 70000])
                 steps.append(q)
             out.append(dict(id="C15-%s-%d-%d" % (tier[0], i, m), seed=rnd.randrange(1, 1 << 30),
-                            prog=dict(mode=a["mode"], dEn=a["dEn"], uEn=a["uEn"], offer=a["offer"], reply=a["reply"], steps=steps)))
+                            prog=dict(mode=a["mode"], dEn=a["dEn"], uEn=a["uEn"], offer=a["offer"], reply=a["reply"],
+                                      rhx=a.get("rhx") or dict(present=False, key=[], v=[]), steps=steps)))
     return out
 
 
@@ -648,6 +657,7 @@ def describe_c15(prog):
     p = prog["prog"]
     return dict(mode=p["mode"], Dialer_EnableCompression=p["dEn"], Upgrader_EnableCompression=p["uEn"],
                 offer=[text(x) for x in p["offer"]], reply=[text(x) for x in p["reply"]],
+                responseHeader={text(p["rhx"]["key"]): text(p["rhx"]["v"])} if p.get("rhx", {}).get("present") else None,
                 steps=[{k: v for k, v in st.items() if k in ("op", "side") or (k == "n" and st["op"] in ("send", "feed", "wr")) or (st["op"] == "feed" and k == "comp") or
                         (st["op"] == "ewc" and k == "on") or (st["op"] == "scl" and k == "level")} for st in p["steps"]])
 
